@@ -24,6 +24,12 @@ Proof.
   assert (i = 0) by lia. subst. exists 1, 1, (RLayers 0 1). repeat split. exact IH.
 Qed.
 
+Lemma g1_closed_root : forall n, closed (inst_of G1) n (RColrGlyph 2).
+Proof.
+  destruct n as [|n]; [exact Logic.I|]. cbn [closed].
+  exists 1, 1, (RLayers 0 1). split; [reflexivity|]. split; [reflexivity|]. apply g1_closed_layers.
+Qed.
+
 (* the hypotheses of c13_cycle_is_error / c13_cycle_error_kind are satisfiable *)
 Example g1_cycle_hyps :
   base_glyph (inst_of G1) 1 = BSome 0 0 /\ resolve (inst_of G1) 0 = Some (RColrGlyph 2) /\
@@ -32,8 +38,7 @@ Proof.
   split; [reflexivity|]. split; [reflexivity|]. split.
   - apply (deepS _ 63 _ (RLayers 0 1)); [|apply g1_deep_layers].
     apply (e_colr (inst_of G1) 2 1 1); reflexivity.
-  - change (closed (inst_of G1) (S 63) (RColrGlyph 2)). cbn [closed].
-    exists 1, 1, (RLayers 0 1). repeat split. apply g1_closed_layers.
+  - apply g1_closed_root.
 Qed.
 
 (* "a reachable cycle => never Ok" is FALSE when the client draws the sub-glyph from its cache:
